@@ -149,6 +149,54 @@ pub fn gen_c01(rng: &mut Rng, tier: Tier) -> Scenario {
         })];
         return sc;
     }
+    // "tight and nearly special": the cell is bisected down to contact (as the implementation sees
+    // it), a cell or site parameter is moved a hair off where it stands (1e-7 .. 1e-3) - before or
+    // after the bisection -, and a greedy stage with tiny moves follows.  Whatever conversion or
+    // overlap test treats "nearly rectangular / nearly on the edge" as exactly so is then asked
+    // about a packing with no slack.
+    if rng.chance(0.12) {
+        sc.shape = match rng.below(4) {
+            0 | 1 => ShapeSpec::Circle,
+            2 => ShapeSpec::Polygon(*rng.pick(&[3usize, 4, 6])),
+            _ => ShapeSpec::Trimer { radius: 0.7, angle: 120.0, distance: 1.0 },
+        };
+        sc.group = rng.pick(&["p2", "p2", "p1", "p2", "p2gg", "p1g1", "p2mg"]).to_string();
+        let gap = *rng.pick(&[1e-5, 1e-7, 1e-9, 1e-12]);
+        let site: Vec<(String, f64)> = vec![
+            ("site0.x".to_string(), *rng.pick(&[0.25, 0.25, 0.2, 0.3, 0.5, 0.0])),
+            ("site0.y".to_string(), *rng.pick(&[0.25, 0.25, 0.2, 0.3, 0.5, 0.0])),
+            ("site0.angle".to_string(), rng.range_f64(0.0, 6.28)),
+        ];
+        let delta = *rng.pick(&[1e-7, 3e-7, 5e-7, 9e-7, 2e-6, 1e-5, 1e-4, 5e-4, 1e-3]);
+        let nudge = Op::Nudge(vec![match rng.below(6) {
+            0..=3 => ("cell.angle".to_string(), -delta),
+            4 => ("cell.ratio".to_string(), -delta),
+            _ => (rng.pick(&["site0.x", "site0.y"]).to_string(), if rng.chance(0.5) { delta } else { -delta }),
+        }]);
+        let contact = Op::Contact("cell.length".to_string(), gap);
+        sc.chain = vec![Op::Special(site)];
+        if rng.chance(0.5) {
+            sc.chain.push(nudge);
+            sc.chain.push(contact);
+        } else {
+            sc.chain.push(contact.clone());
+            sc.chain.push(nudge);
+            sc.chain.push(contact);
+        }
+        sc.chain.push(Op::Stage(OptCfg {
+            steps: *rng.pick(&[300u64, 500, 1000]).min(&max_steps),
+            inner: 100,
+            kt_start: 0.0,
+            kt_finish: None,
+            kt_ratio: None,
+            max_step: *rng.pick(&[1e-6, 1e-5, 1e-4, 1e-3]),
+            convergence: None,
+            seed: rng.below(1 << 32),
+            order: 0,
+            prior: None,
+        }));
+        return sc;
+    }
     // "clamp storm": zero-temperature stages with the largest step sizes drive site and cell
     // parameters onto their bounds (x = +-1/2, orientation 0 / 2pi, cell angle pi/6), which is how
     // copies displaced exactly along an edge direction arise
